@@ -373,6 +373,11 @@ def check_local(ctx):
         # the object that is refitted per cut: whichever attribute of the adapter holds it (found by the key the evaluation
         # carries, not by the attribute's private name)
         sub = next((f_ for f_ in obj.fields.values() if isinstance(f_, ObjV) and f_.key == okey), None)
+        if sub is None:
+            # the copy may be taken in fit (F-31): it is then an object of THIS path - look it up among the clones the path made
+            sub = next((e_.data["new"] for e_ in p.events if e_.kind == "clone" and isinstance(e_.data.get("new"), ObjV) and e_.data["new"].key == okey), None)
+            if isinstance(sub, ObjV) and isinstance(sub.meta.get("clone_of"), ObjV) and sub.meta["clone_of"].key == st["cost"].key:
+                sub.meta["clone_of"] = st["cost"] if sub.meta["clone_of"].key == st["cost"].key else sub.meta["clone_of"]
         owned = isinstance(sub, ObjV) and sub.meta.get("clone_of") is st["cost"] and sub is not st["cost"]
         ctx.check(owned and okey == (sub.key if isinstance(sub, ObjV) else None), "C06.a OWNED-CLONE", "LocalAnomalyScore|refit-object", s.loc(), "the cost refitted on other data is an owned clone, not the user's cost object", found=f"evaluates {okey}", expected="clone(cost)")
         # cut row i
